@@ -74,11 +74,12 @@ Example C19_bound_refuted_before_fix :
      estimate_before_fix sh n dim < peak (read_trace sh ++ convolve_trace sh n dim).
 Proof. exact bound_refuted_before_fix. Qed.
 
-(* --- side finding (C20's subject): values stored without their FITS quotes are freed with a smaller byte count
-       than they were allocated with, so the byte accounting of the destructor does not return to zero *)
-Example C19_destroy_miscounts_quoted_values :
-  exists sh, card_limits sh = true /\ valid_conv sh 1 0 = true /\ live (life_trace sh 1 0) = 2.
-Proof. exact destroy_miscounts_quoted_values. Qed.
+(* --- values stored without their FITS quotes used to be freed with a smaller byte count than they were allocated with
+       (C20's finding, fixed in /repo: the value block is now requested with the stored length); the model follows the
+       fixed reader, and a quoted value is returned byte for byte *)
+Example C19_destroy_returns_quoted_values :
+  exists sh, card_limits sh = true /\ valid_conv sh 1 0 = true /\ no_quotes sh = false /\ live (life_trace sh 1 0) = 0.
+Proof. exact destroy_returns_quoted_values. Qed.
 
 Print Assumptions C19_bound.
 Print Assumptions C19_bound_noconv.
